@@ -320,6 +320,7 @@ class LoopSpec:
         self.extra_targets = set()
         self.ghost = ghost  # callable(it, env, phase)
         self.ghost_loop = False
+        self.alias = {}  # logical local name used by the clauses -> actual name in the code (Contract.alias_resolver)
 
     def _S(self, it, env):
         vars = {}
@@ -334,6 +335,12 @@ class LoopSpec:
         for e in reversed(chain[:-1] if len(chain) > 1 else chain):
             vars.update(e.vars)
         vars.update(env.vars)
+        for logical, actual in self.alias.items():
+            if logical != actual:
+                if actual in vars:
+                    vars[logical] = vars[actual]
+                else:
+                    vars.pop(logical, None)  # not bound yet: must not fall back to a unit variable of the same name
         S = CallState(it, vars, None)
         return S
 
@@ -352,9 +359,10 @@ class LoopSpec:
         return False
 
     def havoc(self, it, env, targets, lname):
-        for name in sorted(set(targets) | self.extra_targets | set(self.shapes)):
+        shapes = {self.alias.get(k, k): v for k, v in self.shapes.items()}
+        for name in sorted(set(targets) | self.extra_targets | set(shapes)):
             e = env.find(name)
-            shape = self.shapes.get(name)
+            shape = shapes.get(name)
             if shape is not None:
                 (e or env).vars[name] = shape(it) if callable(shape) else fresh(shape, name)
                 continue
@@ -575,6 +583,19 @@ def run_unit(c: Contract, repo, opts=None):
         u = U(it, c)
         if c.setup is None:
             raise Unsupported("contract has no setup")
+        resolver = getattr(c, "alias_resolver", None)
+        if resolver is not None:
+            # names of locals the loop contracts speak about are read from the real function's AST (logical -> actual),
+            # so that renaming a local is harmless
+            import ast as _ast
+
+            last = c.qualname.split(".")[-1]
+            nodes = [n for n in _ast.walk(it.modules[c.module].tree) if isinstance(n, (_ast.FunctionDef, _ast.AsyncFunctionDef)) and n.name == last]
+            if len(nodes) != 1:
+                raise Unsupported(f"{c.qualname}: function not found (or ambiguous) for local-name resolution")
+            alias = guarded("local-name resolution", resolver, nodes[0])
+            for spec in hooks.get("loops", {}).values():
+                spec.alias = dict(alias)
         target, args, kwargs, vars = c.setup(u)
         S = CallState(it, vars, c)
         ctx.unit_state = S
